@@ -34,6 +34,9 @@ def base_cflags(san):
           "-DUPIPE_VERIF", "-Wno-everything",
           "-I" + os.path.join(REPO, "include"), "-I" + REPO, "-I" + os.path.join(REPO, "lib"),
           "-I" + os.path.join(VERIF, "engine"), "-I" + os.path.join(VERIF, "shim")]
+    if os.environ.get("VERIF_COV"):
+        # development aid (bin/anchorcov): source-based coverage of the repository code the executors run
+        fl += ["-fprofile-instr-generate", "-fcoverage-mapping"]
     if san == "asan":
         fl += ["-fsanitize=address"]
     elif san == "tsan":
@@ -102,6 +105,8 @@ def build_exec(pid, ex, san=None, fuzz=False):
         drv = driver_obj("rc_driver", san)
     if not KEEP_BINARIES:
         binpath = "%s.%d" % (binpath, os.getpid())   # one binary per invocation: never replaced while another run executes it
+    if os.environ.get("VERIF_COV"):
+        sanflag = sanflag + ["-fprofile-instr-generate"]
     cmd = [CXX, "-g"] + sanflag + objs + [drv, "-o", binpath] + ([] if fuzz else ["-lrapidcheck"]) + \
           ["-lpthread", "-lm"] + ex.get("libs", [])
     r = run(cmd)
